@@ -21,6 +21,7 @@ RULE = ('Hypothesis draws a type T, 1..3 values and a reference encoding of each
         'missing; no underrun once everything is delivered and the end signalled; nothing but values and underrun objects is '
         'yielded. evaluations = scheduled runs; non-trivial = the schedule cuts inside an element; distinct = distinct (s, '
         'schedule, double).')
+RULE += (' ' + 'Also: a caller-owned io.BytesIO that grows between objects, ONE decoder object iterated again after each append, io.BufferedReader over the seekable double, and one large primitive value (8300 octets .. 1.2 MiB) followed by three small ones in starvation schedules (part of it, idle polls, the rest together with octets of what follows; the second piece also landing between two reads of one decoder step).')
 ASSUMPTIONS = ['the complete-input run on io.BytesIO(s) is the reference outcome (differential oracle within the library)',
                'stream doubles implement exactly the read protocol of codec/streaming.py (None = no data yet, b"" = end)']
 SHARDS = {'quick': (16, 14), 'thorough': (16, 700)}
